@@ -310,8 +310,8 @@ pub fn explore_contours(f: &ContourFn, sizes: &[(usize, usize)], sample_cap: usi
 
 pub const BG: u8 = 0;
 pub const FG: u8 = 7;
-/// A single call that makes no progress for this long is reported as "did not return".
-const STUCK: Duration = Duration::from_millis(100);
+/// A single call that consumes more CPU time than this is reported as "did not return".
+const STUCK: Duration = Duration::from_millis(60);
 /// Cap on points pulled from one FillIter.
 const FILL_CAP: usize = 4096;
 
@@ -676,9 +676,10 @@ pub fn run_job_guarded(fns: &'static DrawFns, job: &Job) -> (Local, Option<u64>)
     let completed = Arc::new(AtomicU64::new(job.lo));
     let done = Arc::new(AtomicBool::new(false));
     let shared = Arc::new(Mutex::new(Local::new()));
+    let handle;
     {
         let (completed, done, shared, job) = (completed.clone(), done.clone(), shared.clone(), job.clone());
-        std::thread::spawn(move || {
+        handle = std::thread::spawn(move || {
             for idx in job.lo..job.hi {
                 let case = job.case_at(idx);
                 if job.excluded(&case) {
@@ -700,7 +701,11 @@ pub fn run_job_guarded(fns: &'static DrawFns, job: &Job) -> (Local, Option<u64>)
             done.store(true, Ordering::SeqCst);
         });
     }
-    let mut last = (completed.load(Ordering::SeqCst), Instant::now());
+    // Stuck = the helper thread has burnt more than STUCK of CPU time on one case. CPU time
+    // (not wall time) makes the detector independent of machine load: a normal call needs
+    // microseconds, a spinning fill_iter needs minutes.
+    let cpu = thread_cpu_clock(&handle);
+    let mut last = (completed.load(Ordering::SeqCst), cpu.now());
     loop {
         if done.load(Ordering::SeqCst) {
             let l = std::mem::take(&mut *shared.lock().unwrap());
@@ -708,20 +713,44 @@ pub fn run_job_guarded(fns: &'static DrawFns, job: &Job) -> (Local, Option<u64>)
         }
         std::thread::sleep(Duration::from_millis(1));
         let c = completed.load(Ordering::SeqCst);
+        let now = cpu.now();
         if c != last.0 {
-            last = (c, Instant::now());
-        } else if last.1.elapsed() > STUCK {
+            last = (c, now);
+        } else if now.saturating_sub(last.1) > STUCK {
             let mut g = shared.lock().unwrap();
             let c2 = completed.load(Ordering::SeqCst);
             if c2 != c || c2 >= job.hi {
                 drop(g);
-                last = (c2, Instant::now());
+                last = (c2, cpu.now());
                 continue;
             }
-            // the call for case `c` has been in flight for > STUCK
+            // the call for case `c` has consumed > STUCK of CPU time
             let l = std::mem::take(&mut *g);
             return (l, Some(c));
         }
+    }
+}
+
+/// CPU-time clock of another thread of this process.
+struct ThreadCpu(Option<libc::clockid_t>);
+
+fn thread_cpu_clock(h: &std::thread::JoinHandle<()>) -> ThreadCpu {
+    use std::os::unix::thread::JoinHandleExt;
+    let mut cid: libc::clockid_t = 0;
+    let rc = unsafe { libc::pthread_getcpuclockid(h.as_pthread_t(), &mut cid) };
+    // rc != 0: the thread has already finished (short job); `now` then always reports zero
+    // and the monitor simply waits for the done flag.
+    ThreadCpu(if rc == 0 { Some(cid) } else { None })
+}
+
+impl ThreadCpu {
+    fn now(&self) -> Duration {
+        let Some(cid) = self.0 else { return Duration::ZERO };
+        let mut ts = libc::timespec { tv_sec: 0, tv_nsec: 0 };
+        if unsafe { libc::clock_gettime(cid, &mut ts) } != 0 {
+            return Duration::ZERO;
+        }
+        Duration::new(ts.tv_sec as u64, ts.tv_nsec as u32)
     }
 }
 
@@ -786,7 +815,7 @@ fn drive_job(w: &mut Worker, job: &Job, out: &mut Local, hangs: &mut Vec<Json>, 
             let case = job.case_at(i);
             out.add("draw_calls_that_did_not_return", 1);
             out.observe(&format!(
-                "{} ({}) did not return within {} ms, twice (call abandoned, worker process killed)",
+                "{} ({}) did not return within {} ms of CPU time, twice (call abandoned, worker process killed)",
                 case.prim.name(),
                 if case.width <= 1 { "width<=1" } else { "width>=2" },
                 STUCK.as_millis()
@@ -969,7 +998,7 @@ fn replay(ctx: Ctx, path: &std::path::Path) -> ! {
             n += 1;
         }
         if !hangs.is_empty() {
-            println!("C36 replay: the call did not return within {} ms", STUCK.as_millis());
+            println!("C36 replay: the call did not return within {} ms of CPU time", STUCK.as_millis());
         }
         for (k, v) in &loc.obs {
             ctx.observe_n(k, *v);
